@@ -107,7 +107,10 @@ fn pick_col<'a>(rng: &mut Rng, s: &'a Src, kinds: &str) -> Option<&'a (String, &
 fn gen_scalar(rng: &mut Rng, s: &Src, depth: u32) -> String {
     let num = pick_col(rng, s, "if").map(|c| c.0.clone()).unwrap_or("1".into());
     if depth == 0 { return num; }
-    match rng.below(20) {
+    match rng.below(22) {
+        // float constants that need all 17 significant digits, of large and of tiny magnitude: a renderer may not move them by an ulp
+        20 => { let k = *rng.pick(&["12345678901.234568", "98765432109.87654", "1.2345678901234567e-11", "123456789012345.67"]); format!("{num} + {k}") }
+        21 => { let k = *rng.pick(&["12345678901.234568", "1.2345678901234567e-11", "7.0000000000000007e-12"]); format!("CASE WHEN {num} * 0 + {k} = {k} THEN 1 ELSE 0 END") }
         // comparisons whose threshold sits exactly on a bound of some column (0, 3, 5, 10, 100, -5, -10 are bounds of the harness tables),
         // projected as a flag, inside a CASE, or as a range test
         17 => { let k = *rng.pick(&[0i64, 3, 5, 10, 100, -5, -10]); let op = *rng.pick(&[">=", "<=", ">", "<"]); format!("CASE WHEN {num} {op} {k} THEN 1000 ELSE {num} END") }
